@@ -92,6 +92,16 @@ CLAIMED['C16'] = dict(
     technique='TLA+ transcription + TLC exhaustive enumeration; spec->code replay of every case',
     design_ref='3/C16')
 
+CLAIMED['C10'] = dict(
+    text=('StateDict.tla models to_state_dict / from_state_dict over dict, FrozenDict, list, tuple, namedtuple and struct.dataclass terms '
+          'with every mismatch as an error outcome carrying the path, and the chunking arithmetic; TLC checks round trip, single-edit '
+          'mismatch behaviour (dropped entry raises at that node, surplus dict key ignored, surplus elsewhere rejected) and the chunk '
+          'invariants on all trees of depth 2 / all (size, itemsize, threshold). Cases are instantiated with real containers and a '
+          'dtype x shape x layout leaf table and compared with real to/from_state_dict, to/from_bytes under rotating thresholds, '
+          'msgpack_serialize/restore; chunk lengths are read back from the encoded bytes; inputs are snapshotted.'),
+    technique='TLA+ term model + TLC exhaustive enumeration; spec->code replay with byte-level leaf comparison by the harness',
+    design_ref='3/C10')
+
 NOT_YET = 'check not built yet in this round (planned, see DESIGN.md section 3); not claimed until its specification is bound to the code'
 ALL = ['C%02d' % i for i in range(1, 21)]
 
